@@ -20,7 +20,7 @@ from .shared import PT, tol
 TOL = z3.RealVal("1/1000000")
 
 
-def qtable(h, nmin=1, name="n"):
+def qtable(h, nmin=1, name="n", adjacency=True):
     """A ProblemTable whose 43 columns are arbitrary functions of the row index, rows strictly descending by more than tol."""
     if not h.symbolic:
         raise ReplayMismatch("symbolic row count: no native replay")
@@ -32,7 +32,8 @@ def qtable(h, nmin=1, name="n"):
     pt.data = QTable(n, len(pt.columns), lambda j: fresh_column(f"{name}_col{j}", n))
     T = pt.col[PT.T.value]
     i = z3.Int(name + "_i")
-    h.ctx.add_axiom(z3.ForAll([i], z3.Implies(z3.And(i >= 1, i < n), lift_real(T.at(i - 1)) - lift_real(T.at(i)) > TOL)))
+    if adjacency:
+        h.ctx.add_axiom(z3.ForAll([i], z3.Implies(z3.And(i >= 1, i < n), lift_real(T.at(i - 1)) - lift_real(T.at(i)) > TOL)))
     return pt, n
 
 
@@ -196,3 +197,79 @@ def split_obligation(name):
     return Obligation(name, ob_split_profiles, kind="proof", functions=[gm.get_seperated_gcc_heat_load_profiles], timeout_ms=30000,
                       expect=("cooling_profile_monotone", "heating_profile_starts_at_Qh"),
                       doc="UNBOUNDED in the number of rows: load profiles monotone, zero at the pinch side, Qh / Qc at the far ends (induction)")
+
+
+def ob_content_rows(h):
+    """_sum_mcp_between_temperature_boundaries + problem_table_algorithm on a grid of ANY number of rows that contains the shifted bounds
+    of 1..2 symbolic hot streams (and arbitrary other rows): the hot composite at every row is the exact heat content of the streams
+    below that row's temperature."""
+    from OpenPinch.classes.stream import Stream
+    pt, n = qtable(h, nmin=2, adjacency=False)
+    T = pt.col[PT.T.value]
+    N = SymInt(n)
+    SEP = 1e-5
+    zero, last = SymInt(z3.IntVal(0)), SymInt(n - 1)
+    k, jj = SymInt(z3.Int("k")), SymInt(z3.Int("j"))
+    h.assume(And(k >= 1, k < N, jj >= 0, jj < N))
+    for t in (zero, last, k, k - 1, jj):
+        h.row_term(t)
+    # the grid is sorted with separated rows (SEP, as built by create_problem_table_with_t_int from 6-dp rounded distinct values); used in
+    # the instances needed: adjacent rows, and every row against the rows that hold a stream bound
+    h.assume_rows(lambda i: T.at(i - 1) - T.at(i) > SEP, 1, N)
+    m = h.choice("hot_streams", [1, 2])
+    is_shifted = h.choice("is_shifted", [True, False])
+    streams, lo, hi, cps, facts = [], [], [], [], [SymBool(n >= 2)]
+    for s in range(m):
+        tmax, tmin, dt = h.real(f"s{s}_t_supply"), h.real(f"s{s}_t_target"), h.real(f"s{s}_dt", lo=0)
+        cp = h.choice(f"s{s}_cp", [1.0, 3.0])
+        h.assume(tmax - tmin > 1e-5)
+        st = Stream(f"s{s}", tmax, tmin, dt_cont=dt, heat_flow=cp * (tmax - tmin), htc=1.0)
+        a, b = (st.t_max_star, st.t_min_star) if is_shifted else (st.t_max, st.t_min)
+        for nm, val in (("max", a), ("min", b)):          # both bounds of the stream are rows of the grid
+            r = SymInt(z3.Int(f"row_of_s{s}_{nm}"))
+            h.assume(And(r >= 0, r < N))
+            h.assume(h.eq(T.at(r), val))
+            facts += [And(r >= 0, r < N), h.eq(T.at(r), val)]
+            h.row_term(r)
+            h.assume_rows((lambda r: lambda i: And(Implies(i < r, T.at(i) - T.at(r) > SEP), Implies(i > r, T.at(r) - T.at(i) > SEP)))(r), 0, N)
+        streams.append(st); hi.append(a); lo.append(b); cps.append(cp)
+    pta.problem_table_algorithm(pt, streams, None, is_shifted)
+    g = lambda col, r: _g(pt, col, r)
+    below = lambda s, t: sym_max0(sym_min(t, hi[s]) - lo[s])
+    content = lambda r: sum((cps[s] * below(s, T.at(r)) for s in range(m)), 0.0)
+    spans = lambda s, r: And(T.at(r) >= lo[s], T.at(r - 1) <= hi[s])
+    # per stream: the activity test of the code is 'the stream spans the interval', and the heat content between two adjacent rows is
+    # the whole interval if the stream spans it, nothing otherwise
+    lemmas = []
+    for s in range(m):
+        lemmas.append(h.lemma_rows("activity_test_means_stream_spans_the_interval", (lambda s: lambda r: And(
+            (hi[s] > T.at(r) + 10 * tol) == (T.at(r - 1) <= hi[s]), (lo[s] < T.at(r - 1) - 10 * tol) == (T.at(r) >= lo[s])))(s), N, base=1, facts=facts))
+        lemmas.append(h.lemma_rows("stream_content_between_adjacent_rows", (lambda s: lambda r: h.eq(below(s, T.at(r - 1)) - below(s, T.at(r)), sym_ite(spans(s, r), T.at(r - 1) - T.at(r), 0.0)))(s), N, base=1, facts=facts))
+    cp_lemma = h.lemma_rows("interval_heat_capacity_is_sum_of_spanning_streams", lambda r: h.eq(g(PT.CP_HOT.value, r), sum((sym_ite(spans(s, r), cps[s], 0.0) for s in range(m)), 0.0)), N, base=1,
+                            using=lemmas, facts=facts)
+    h.must_not_prove("canary_no_stream_active", h.eq(g(PT.CP_HOT.value, k), 0.0))
+    h.must_not_prove("canary_false", False)
+    # CONTENT: the curve is anchored at the bottom, so prove that curve - content is constant over the rows, then evaluate at the bottom
+    gap = lambda r: g(PT.H_HOT.value, r) - content(r)
+    h.induct("hot_curve_minus_heat_content_is_constant", lambda r: h.eq(gap(r), gap(zero)), N, using=lemmas + [cp_lemma], facts=facts)
+    h.check("no_heat_content_below_the_bottom_row", h.eq(content(last), 0.0))
+    h.check("hot_curve_zero_at_bottom", h.eq(g(PT.H_HOT.value, last), 0.0))
+    h.check("hot_curve_is_heat_content_below_the_row", h.eq(g(PT.H_HOT.value, jj), content(jj)))
+    h.check("hot_curve_spans_total_duty", h.eq(g(PT.H_HOT.value, zero), sum((cps[s] * (hi[s] - lo[s]) for s in range(m)), 0.0)))
+
+
+def sym_min(a, b):
+    from pvc.sym import smin
+    return smin(a, b)
+
+
+def sym_max0(a):
+    from pvc.sym import smax
+    return smax(a, 0.0)
+
+
+def content_obligation(name):
+    return Obligation(name, ob_content_rows, kind="proof", functions=[pta._sum_mcp_between_temperature_boundaries, pta.problem_table_algorithm], timeout_ms=60000,
+                      expect=("hot_curve_is_heat_content_below_the_row", "hot_curve_minus_heat_content_is_constant.step", "interval_heat_capacity_is_sum_of_spanning_streams", "activity_test_means_stream_spans_the_interval"),
+                      bound="UNBOUNDED in rows; 1..2 hot streams with symbolic temperatures and contributions, heat-capacity flow rates from {1, 3}",
+                      doc="CONTENT: on any sorted, separated grid containing the streams' bounds the hot composite equals the exact heat content below each row (induction over rows)")
